@@ -25,9 +25,13 @@ ZSTD = 32015
 class DType:
     _strict_attrs = True
 
-    def __init__(self, kind, size=None):
+    def __init__(self, kind, size=None, itemsize=None):
         self.kind = kind
         self.size = size
+        #: bytes per element
+        self.itemsize = itemsize if itemsize is not None else (
+            size if kind == "S" and size else
+            {"f": size or 8, "i": 8, "u": 1, "O": 8, "V": 16}.get(kind, 8))
         # numpy type character: float32 'f', float64 'd'
         if kind == "f" and size == 4:
             self.char = "f"
